@@ -35,9 +35,9 @@ import fitlib as F  # noqa: E402
 _DATA = {}
 
 
-def dataset(fam, ds):
-    """deterministic in (fam, ds) only"""
-    key = (fam, ds)
+def dataset(fam, ds, extra=False):
+    """deterministic in (fam, ds, extra) only; extra: the hourly frames also carry supplemental columns"""
+    key = (fam, ds, extra)
     if key in _DATA:
         return _DATA[key]
     # data sets numbered 1_000_000 and up are the "other building": +25 F warmer and 3 times the usage
@@ -71,6 +71,19 @@ def dataset(fam, ds):
             for fr in (h, hr):
                 fr["temperature"] = fr["temperature"] + 20.0
                 fr["observed"] = fr["observed"] * 3.0
+        if extra:
+            # supplemental time-series columns (wind, humidity, occupancy) and two 0/1 categorical columns, with an effect on usage
+            for j, fr in enumerate((h, hr)):
+                r = np.random.default_rng(7 * ds + j)
+                n = len(fr)
+                hod, dow = fr.index.hour.values, fr.index.dayofweek.values
+                fr["wind_speed"] = 8 + 4 * np.sin(np.arange(n) / 500.0) + r.normal(0, 2, n)
+                fr["humidity"] = 50 + 20 * np.cos(hod / 24 * 2 * np.pi) + r.normal(0, 5, n)
+                fr["occupancy"] = np.clip(30.0 * ((dow < 5) & (np.abs(hod - 13) < 5)) + r.normal(0, 3, n), 0, None)
+                fr["holiday"] = (r.random(n // 24 + 1) < 0.05).repeat(24)[:n].astype(float)
+                fr["night_shift"] = ((hod >= 22) | (hod < 6)).astype(float) * (dow % 2 == 0)
+                fr["observed"] = fr["observed"] * (1 + 0.01 * fr["occupancy"]) + 0.02 * fr["wind_speed"] + 0.005 * fr["humidity"] \
+                    - 0.3 * fr["holiday"] + 0.2 * fr["night_shift"]
         out = (F.hourly_baseline(h), F.hourly_reporting(hr))
     else:
         h = F.hourly_frame(rng, noise=0.05, ndays=365)
@@ -106,6 +119,11 @@ def new_model(fam, cfg, seed):
             s["temporal_cluster"] = {"recluster_count": 1}
         elif cfg == "silhouette":
             s["temporal_cluster"] = {"score_metric": "silhouette"}
+        elif cfg == "supp3":
+            s["supplemental_time_series_columns"] = ["wind_speed", "humidity", "occupancy"]
+        elif cfg == "suppcat":
+            s["supplemental_time_series_columns"] = ["occupancy", "humidity"]
+            s["supplemental_categorical_columns"] = ["night_shift", "holiday"]
         return HourlyModel(settings=s) if s else HourlyModel()
     from opendsm.eemeter.models.hourly_caltrack import HourlyModel as CT
     return CT()
@@ -161,17 +179,28 @@ def shared_defaults_len():
     return n
 
 
+def safe_pred(m, rep, **kw):
+    """digest of the fixed prediction; a prediction that raises is observed as such (as coded, an hourly model fitted with
+    supplemental_categorical_columns cannot predict: matmul dimension mismatch -- not the subject of C03)"""
+    try:
+        return frame_sha(m.predict(rep, **(kw or {"ignore_disqualification": True})))
+    except Exception as e:  # noqa
+        return "raised:" + type(e).__name__
+
+
 def observe_hourly(m, base, rep):
     drawn = int(m.settings._seed)
     m.fit(base, ignore_disqualification=True)
     js = m.to_json()
-    pred = m.predict(rep, ignore_disqualification=True)
-    return {"json": sha(js), "pred": frame_sha(pred), "len": len(js), "json_noseed": sha(strip_seed(js)), "drawn": drawn}
+    return {"json": sha(js), "pred": safe_pred(m, rep), "len": len(js), "json_noseed": sha(strip_seed(js)), "drawn": drawn}
+
+
+EXTRA_CFGS = ("supp3", "suppcat")
 
 
 def do_fit(op):
     fam = op["fam"]
-    base, rep = dataset(fam, op["ds"])
+    base, rep = dataset(fam, op["ds"], extra=op.get("cfg") in EXTRA_CFGS)
     if fam == "caltrack":
         from opendsm.eemeter.models.hourly_caltrack import HourlyBaselineData, HourlyReportingData
         base = HourlyBaselineData(base[1].copy(), is_electricity_data=True)
@@ -184,8 +213,7 @@ def do_fit(op):
     kw = {} if fam == "caltrack" else {"ignore_disqualification": True}
     m.fit(base, **kw)
     js = m.to_json()
-    pred = m.predict(rep, **kw)
-    obs = {"json": sha(js), "pred": frame_sha(pred), "len": len(js)}
+    obs = {"json": sha(js), "pred": safe_pred(m, rep, **kw) if fam == "hourly" else frame_sha(m.predict(rep, **kw)), "len": len(js)}
     if fam == "hourly":
         obs["json_noseed"] = sha(strip_seed(js))
         obs["drawn"] = drawn
@@ -225,7 +253,7 @@ def main():
                 obs = {}
             elif op["op"] == "fitobj":
                 fam = op.get("fam", "hourly")
-                base, rep = dataset(fam, op["ds"])
+                base, rep = dataset(fam, op["ds"], extra=op.get("cfg") in EXTRA_CFGS)
                 if fam == "hourly":
                     obs = observe_hourly(objs[op["obj"]], base, rep)
                 else:
@@ -270,7 +298,9 @@ def main():
         obs["rng"] = rng_digest()
         obs["shared"] = shared_defaults_len()
         out.append(obs)
-    info = {"total_s": round(time.time() - t0, 2), "rng0": rng0}
+    info = {"total_s": round(time.time() - t0, 2), "rng0": rng0, "hashseed": os.environ.get("PYTHONHASHSEED"),
+            "hash_probe": hash("opendsm") % 1000,
+            "salt_id": hash("opendsm") % (2 ** 61)}     # identifies the hash salt in effect (equal salts => equal value)
     try:
         import threadpoolctl
         info["pools"] = sorted((d["user_api"], d["num_threads"]) for d in threadpoolctl.threadpool_info())
